@@ -412,7 +412,7 @@ func C09(tier string) {
 		idx++
 	}
 	sort.SliceStable(calls, func(i, j int) bool { return calls[i].E.Pkg < calls[j].E.Pkg })
-	if tier != "thorough" && len(calls) > 90 {
+	if tier == "smoke" && len(calls) > 90 {
 		// quick: all misaligned entries + a seeded sample
 		r := core.NewRNG(run.SeedV, "c09")
 		var sel []stdCall
